@@ -258,6 +258,14 @@ def classify(ctx, case, line, race=False):
     if r and r[0] == b"panic":
         ctx.violation("%s: purity history panics" % name, sx(case)[:6000])
         return
+    if r and r[0] == b"undecided":
+        # a resolution did not return within the history's deadline (npm on an alias cycle: finding F-C04-6 of C04);
+        # a resolver stopped by its context gives answers that depend on timing, so the history decides nothing here
+        aliased = case[0] == 0 and any(t and t[0][0] == 8 for p in case[1] for ve in p[1:] for (t, _, _) in ve[2])
+        ctx.count("%s:undecided (%s)" % (name, "npm alias cycle, F-C04-6" if aliased else "deadline"))
+        if not aliased:
+            ctx.notes.append("%s: a history without npm aliases did not finish within its deadline (non-termination is C04's clause)" % name)
+        return
     diffs, ok, total = r
     ctx.count("%s:resolutions" % name, total)
     ctx.count("%s:resolutions_ok" % name, ok)
